@@ -996,53 +996,69 @@ func ruleTAB6(w *World) []Ob {
 			l.undecided(spec.ctor, "factories", "-", "constructor not found", "factory")
 			continue
 		}
-		for _, cl := range ctor.AnonFuncs {
-			res := cl.Signature.Results()
-			if res.Len() != 1 {
-				continue
-			}
-			rt := typeName(res.At(0).Type())
-			switch {
-			case strings.HasPrefix(rt, "spreader"):
-				tab6Spreader(p, l, cl)
-			case strings.HasPrefix(rt, "grower"):
-				tab6Grower(p, l, cl)
+		// the values stored into the tree's grower / spreader fields, as alternatives over the config
+		var cfgPrm *ssa.Parameter
+		for _, prm := range ctor.Params {
+			if typeName(prm.Type()) == "config" {
+				cfgPrm = prm
 			}
 		}
-		// call sites of the factories: arguments are the config fields of matching meaning
 		allInstrs(ctor, func(in ssa.Instruction) {
-			c, ok := in.(*ssa.Call)
+			st, ok := in.(*ssa.Store)
 			if !ok {
 				return
 			}
-			mc, ok := c.Common().Value.(*ssa.MakeClosure)
+			fa, ok := st.Addr.(*ssa.FieldAddr)
 			if !ok {
 				return
 			}
-			cl := mc.Fn.(*ssa.Function)
-			var want []string
-			for _, prm := range cl.Params {
-				want = append(want, prm.Name())
+			_, f, _ := fieldOf(fa)
+			if f != "grower" && f != "spreader" {
+				return
 			}
-			var got []string
-			for _, a := range c.Common().Args {
-				_, f, ok := fieldOfLoad(a)
-				if !ok {
-					f = "?" + describeValue(a)
+			ev := newCaseEval(p, nil)
+			cs := ev.cases(st.Val, 0)
+			cfgName := "cfg"
+			if cfgPrm != nil {
+				cfgName = cfgPrm.Name()
+			}
+			norm := func(t string) string {
+				t = strings.ReplaceAll(t, "("+cfgName+")", "(cfg)")
+				t = strings.ReplaceAll(t, "Simple", "")
+				t = strings.ReplaceAll(t, "Pipeline", "")
+				return t
+			}
+			for i := range cs {
+				cs[i].term = norm(cs[i].term)
+				m := map[string]bool{}
+				for k, v := range cs[i].conds {
+					m[norm(k)] = v
 				}
-				got = append(got, f)
+				cs[i].conds = m
 			}
-			construct := "arguments of factory " + p.FuncID(cl)
-			okAll := len(got) == len(want)
-			for i := range got {
-				if i < len(want) && !paramMatchesField(want[i], got[i]) {
-					okAll = false
+			switch f {
+			case "grower":
+				g := byAtom(cs, "(encode(cfg)==0)")
+				wantReal := "newGrower(lastNodeFormat(cfg),intermedialNodeFormat(cfg),dryrun(cfg))"
+				if len(g["true"]) == 1 && g["true"][0] == wantReal {
+					l.ok(p.FuncID(ctor), "grower factory: the real grower gets formats and dry-run flag", p.InstrPos(st), wantReal+" for the default encoding", true, "factory")
+				} else {
+					l.bad(p.FuncID(ctor), "grower factory: the real grower gets formats and dry-run flag", p.InstrPos(st), fmt.Sprintf("for the default encoding the grower is %v (other cases %v), expected %s: branch strings or the dry-run validation flag do not reach the grower", g["true"], g["*"], wantReal), "factory")
 				}
-			}
-			if okAll {
-				l.ok(p.FuncID(ctor), construct, p.InstrPos(c), "config fields "+strings.Join(got, ", ")+" feed parameters "+strings.Join(want, ", "), true, "factory-args")
-			} else {
-				l.bad(p.FuncID(ctor), construct, p.InstrPos(c), "the factory's parameters ("+strings.Join(want, ", ")+") are fed from config fields ("+strings.Join(got, ", ")+") of a different meaning", "factory-args")
+				if len(g["false"]) == 1 && g["false"][0] == "newNopGrower()" && len(g["*"]) == 0 {
+					l.ok(p.FuncID(ctor), "grower factory: no-op exactly for a non-default encoding", p.InstrPos(st), "encode ≠ default → no-op grower", true, "factory-nop")
+				} else {
+					l.bad(p.FuncID(ctor), "grower factory: no-op exactly for a non-default encoding", p.InstrPos(st), fmt.Sprintf("for a non-default encoding the grower is %v (unconditional cases %v), expected newNopGrower()", g["false"], g["*"]), "factory-nop")
+				}
+			case "spreader":
+				g := byAtom(cs, "dryrun(cfg)")
+				okT := len(g["true"]) == 1 && g["true"][0] == "newColorizeSpreader(fileExtensions(cfg))"
+				okF := len(g["false"]) == 1 && g["false"][0] == "newSpreader(encode(cfg))"
+				if okT && okF && len(g["*"]) == 0 {
+					l.ok(p.FuncID(ctor), "spreader factory: dry-run ⇒ colourising spreader", p.InstrPos(st), "dryrun → newColorizeSpreader*(fileExtensions); otherwise newSpreader*(encode)", true, "factory")
+				} else {
+					l.bad(p.FuncID(ctor), "spreader factory: dry-run ⇒ colourising spreader", p.InstrPos(st), fmt.Sprintf("dry-run selects %v, otherwise %v (unconditional %v); expected newColorizeSpreader*(fileExtensions) / newSpreader*(encode)", g["true"], g["false"], g["*"]), "factory")
+				}
 			}
 		})
 	}
@@ -1124,138 +1140,6 @@ func ruleTAB6(w *World) []Ob {
 	// encode constants ↔ option ↔ encoder package
 	tab6Encoders(w, l)
 	return l.list
-}
-
-func paramMatchesField(param, field string) bool {
-	norm := func(s string) string { return strings.ToLower(strings.ReplaceAll(s, "_", "")) }
-	p, f := norm(param), norm(field)
-	if p == f {
-		return true
-	}
-	alias := map[string]string{"dir": "targetdir", "strict": "strictverify", "extensions": "fileextensions"}
-	return alias[p] == f
-}
-
-func tab6Spreader(p *Prog, l *obs, cl *ssa.Function) {
-	// dryrun ⇒ colorize spreader with the extension list; else newSpreader*(encode)
-	var dry *ssa.Parameter
-	for _, prm := range cl.Params {
-		if b, ok := prm.Type().Underlying().(*types.Basic); ok && b.Kind() == types.Bool {
-			dry = prm
-		}
-	}
-	var problems []string
-	n := 0
-	allInstrs(cl, func(in ssa.Instruction) {
-		r, ok := in.(*ssa.Return)
-		if !ok {
-			return
-		}
-		n++
-		call, ok := stripConv(rr(r)[0]).(*ssa.Call)
-		if !ok || call.Common().StaticCallee() == nil {
-			problems = append(problems, "a return does not hand back a constructor call")
-			return
-		}
-		name := call.Common().StaticCallee().Name()
-		side := "?"
-		for _, g := range guardsOf(r.Block()) {
-			c, pol := flattenCond(g.Cond, g.Pol)
-			if sameVar(c, dry) {
-				side = fmt.Sprint(pol)
-			}
-		}
-		switch {
-		case strings.Contains(name, "Colorize") && side == "true":
-			okExt := false
-			for _, a := range call.Common().Args {
-				if _, isSl := a.Type().Underlying().(*types.Slice); isSl {
-					if prm, isP := resolve(a).(*ssa.Parameter); isP && strings.Contains(strings.ToLower(prm.Name()), "ext") {
-						okExt = true
-					}
-				}
-			}
-			if !okExt {
-				problems = append(problems, "the colourising spreader is built without the extension list parameter")
-			}
-		case strings.HasPrefix(name, "newSpreader") && side == "false":
-		default:
-			problems = append(problems, name+" is returned on the dryrun="+side+" side")
-		}
-	})
-	if n != 2 {
-		problems = append(problems, fmt.Sprintf("%d returns, expected one per dry-run side", n))
-	}
-	if len(problems) > 0 {
-		l.bad(p.FuncID(cl), "spreader factory: dry-run ⇒ colourising spreader", p.Pos(cl.Pos()), strings.Join(dedupSorted(problems), "; "), "factory")
-	} else {
-		l.ok(p.FuncID(cl), "spreader factory: dry-run ⇒ colourising spreader", p.Pos(cl.Pos()), "dryrun → newColorizeSpreader*(extensions); otherwise newSpreader*(encode)", true, "factory")
-	}
-}
-
-func tab6Grower(p *Prog, l *obs, cl *ssa.Function) {
-	var problems, nopProblems []string
-	sawReal := false
-	n := 0
-	allInstrs(cl, func(in ssa.Instruction) {
-		r, ok := in.(*ssa.Return)
-		if !ok {
-			return
-		}
-		n++
-		call, ok := stripConv(rr(r)[0]).(*ssa.Call)
-		if !ok || call.Common().StaticCallee() == nil {
-			problems = append(problems, "a return does not hand back a constructor call")
-			return
-		}
-		name := call.Common().StaticCallee().Name()
-		side := "?"
-		for _, g := range guardsOf(r.Block()) {
-			c, pol := flattenCond(g.Cond, g.Pol)
-			if b, ok := c.(*ssa.BinOp); ok {
-				if k, isC := constInt(b.Y); isC && k == 0 {
-					if prm, isP := b.X.(*ssa.Parameter); isP && typeName(prm.Type()) == "encode" {
-						nonDefault := (b.Op == token.NEQ) == pol
-						side = fmt.Sprint(nonDefault)
-					}
-				}
-			}
-		}
-		if strings.HasPrefix(name, "newGrower") {
-			// (last, intermedial, dryrun) in order
-			var got []string
-			for _, a := range call.Common().Args {
-				got = append(got, describeValue(resolve(a)))
-			}
-			if len(got) != 3 || got[0] != "lastNodeFormat" || got[1] != "intermedialNodeFormat" || got[2] != "dryrun" {
-				problems = append(problems, "newGrower* receives ("+strings.Join(got, ", ")+") instead of (lastNodeFormat, intermedialNodeFormat, dryrun)")
-			} else {
-				sawReal = true
-			}
-		}
-		switch {
-		case strings.HasPrefix(name, "newNopGrower") && side == "true":
-		case strings.HasPrefix(name, "newGrower") && side == "false":
-		default:
-			nopProblems = append(nopProblems, name+" is returned on the non-default-encoding="+side+" side")
-		}
-	})
-	if !sawReal {
-		problems = append(problems, "no return of newGrower*(lastNodeFormat, intermedialNodeFormat, dryrun)")
-	}
-	if len(problems) > 0 {
-		l.bad(p.FuncID(cl), "grower factory: the real grower gets formats and dry-run flag", p.Pos(cl.Pos()), strings.Join(dedupSorted(problems), "; "), "factory")
-	} else {
-		l.ok(p.FuncID(cl), "grower factory: the real grower gets formats and dry-run flag", p.Pos(cl.Pos()), "newGrower*(last, intermedial, dryrun) for the default encoding", true, "factory")
-	}
-	if n != 2 {
-		nopProblems = append(nopProblems, fmt.Sprintf("%d returns, expected one per side of `encode != default`", n))
-	}
-	if len(nopProblems) > 0 {
-		l.bad(p.FuncID(cl), "grower factory: no-op exactly for a non-default encoding", p.Pos(cl.Pos()), strings.Join(dedupSorted(nopProblems), "; "), "factory-nop")
-	} else {
-		l.ok(p.FuncID(cl), "grower factory: no-op exactly for a non-default encoding", p.Pos(cl.Pos()), "encode ≠ default → no-op grower, encode = default → real grower", true, "factory-nop")
-	}
 }
 
 func tab6Encoders(w *World, l *obs) {
@@ -1475,8 +1359,31 @@ func ruleTAB7(w *World) []Ob {
 			nExit++
 			k, isC := constInt(c.Common().Args[1])
 			construct := num.name("cli.Exit code")
+			if !isC {
+				// the code is a parameter / receiver of a small helper: every caller passes a non-zero constant
+				v := c.Common().Args[1]
+				if cv, ok := v.(*ssa.Convert); ok {
+					v = cv.X
+				}
+				if prm, ok := v.(*ssa.Parameter); ok {
+					idx := inputIndexParam(fn, prm)
+					all, n := true, 0
+					for _, ci := range p.Callers(fn) {
+						args := callArgs(ci.Common())
+						if idx < len(args) {
+							if kk, okc := constInt(args[idx]); okc && kk != 0 {
+								n++
+								k = kk
+								continue
+							}
+						}
+						all = false
+					}
+					isC = all && n > 0
+				}
+			}
 			if isC && k != 0 {
-				l.ok(p.FuncID(fn), construct, p.InstrPos(c), fmt.Sprintf("constant %d", k), false, "code")
+				l.ok(p.FuncID(fn), construct, p.InstrPos(c), fmt.Sprintf("non-zero constant (%d)", k), false, "code")
 			} else {
 				l.bad(p.FuncID(fn), construct, p.InstrPos(c), "exit code is zero or not a constant: a failure would be reported as success", "code")
 			}
